@@ -37,7 +37,7 @@ func checkC05(c *km.Ctx) {
 
 	r.Rule("R-C05-1", "a session level only ever grows by OR-ing constant factor bits onto the authenticated session's own level; fresh sessions are minted only at the three creating sites with their single constant level", 5)
 	r.Rule("R-C05-2", "each added factor bit is dominated by the success edge of that factor's verifier, applied to the authenticated user (or to a record bound to that user)", 3)
-	r.Rule("R-C05-3", "the cookie that is re-signed belongs to the authenticated user: the upgrade is called with authUser and the re-signing function compares the cookie's verified subject with it", 4)
+	r.Rule("R-C05-3", "the cookie that is re-signed belongs to the authenticated user: the upgrade is called with authUser and the re-signing function compares the cookie's verified subject with it; checkAuth and the upgrade pick the same one of several session cookies", 4)
 	r.Rule("R-C05-4", "one-time values are consumed before they take effect and expired ones are refused (TOTP counter stored; bootstrap OTP cleared and saved; challenge deleted in the lookup's critical section and unexpired)", 3)
 
 	consts := authTypeConsts(c)
@@ -1169,22 +1169,13 @@ func authCookieSelection(c *km.Ctx, fn *ssa.Function) string {
 					}
 				}
 			default:
-				// a module function that is handed the request and gives back a cookie
+				// a module function that gives back a cookie (handed the request, or a method of a record that holds it)
 				g := km.StaticCallee(ci.Common())
 				if g == nil || len(g.Blocks) == 0 || !c.InModule(g) || depth > 2 {
 					continue
 				}
 				res := g.Signature.Results()
 				if res.Len() == 0 || res.At(0).Type().String() != "*net/http.Cookie" {
-					continue
-				}
-				takesReq := false
-				for _, a := range ci.Common().Args {
-					if a.Type().String() == "*net/http.Request" {
-						takesReq = true
-					}
-				}
-				if !takesReq {
 					continue
 				}
 				inner := scan(g, depth+1)
